@@ -410,6 +410,64 @@ def always_leaves(e, targets):
 # facts
 
 
+def arm_body(arm):
+    """what an arm does when it fires: its body, or the then-branch when the body is a sole `if` whose test was lifted
+    into the effective guard (see normalise)"""
+    if arm.get("guard_from_body"):
+        b = arm["body"]
+        for _ in range(6):
+            b = unwrap(b)
+            if isinstance(b, dict) and b.get("k") == "If":
+                return b["then"]
+            if isinstance(b, dict) and b.get("k") == "BlockExpr" and len(b["block"].get("stmts") or []) == 1 and b["block"].get("expr") is None:
+                b = b["block"]["stmts"][0].get("e")
+            else:
+                break
+    return arm["body"]
+
+
+def conjuncts(e):
+    """the operands of a (possibly nested) `&&`"""
+    eu = unwrap(e) if isinstance(e, dict) else e
+    if isinstance(eu, dict) and eu.get("k") == "Binary" and eu.get("op") == "&&":
+        return conjuncts(eu["l"]) + conjuncts(eu["r"])
+    return [e] if e is not None else []
+
+
+def reach_conds(n, anc):
+    """boolean expressions that all hold whenever node `n` is reached, read off its ancestors: conjuncts of the test of
+    every `if` whose then-branch holds n, and of the guard of every match arm whose body holds n"""
+    out = []
+    for x in anc:
+        if x.get("k") == "If" and any(y is n for y in walk(x["then"])):
+            out += conjuncts(x["cond"])
+        elif x.get("k") == "Match":
+            for a in x.get("arms", []):
+                if a.get("guard") is not None and not a.get("guard_from_body") and any(y is n for y in walk(a["body"])):
+                    out += conjuncts(a["guard"])
+    return out
+
+
+def virtual_arms(m):
+    """the arms of a match, plus one derived arm per top-level `if C { X }` statement of an arm body: (same pattern,
+    guard && C, body X).  `Ok(Event::End(e)) => { if e is A { .. } if e is B { .. } }` is read like two guarded arms."""
+    out = []
+    for a in m.get("arms", []):
+        out.append(a)
+        if a.get("guard_from_body"):
+            continue
+        for st in body_stmts(a["body"]):
+            e = unwrap(st.get("e") or {}) if isinstance(st.get("e"), dict) else None
+            if isinstance(e, dict) and e.get("k") == "If":
+                cu = unwrap(e["cond"])
+                if isinstance(cu, dict) and cu.get("k") == "LetExpr":
+                    continue
+                g = a.get("guard")
+                ng = e["cond"] if g is None else {"k": "Binary", "op": "&&", "span": e["cond"].get("span", a.get("span")), "ty": "bool", "l": g, "r": e["cond"]}
+                out.append(dict(a, guard=ng, body=e["then"], virtual=True))
+    return out
+
+
 def inl_params(body):
     """{lid of an inlined helper's parameter: the argument expression it is bound to} (see Facts._inline_new_helpers)"""
     out = {}
@@ -595,6 +653,29 @@ def normalise(node):
             return {"k": "Match", "span": node["span"], "ty": node.get("ty"), "id": node.get("id"), "src": "IfLet", "scrut": cu["init"],
                     "arms": [{"span": cu["pat"].get("span", node["span"]), "pat": cu["pat"], "guard": None, "body": node["then"]},
                              {"span": els.get("span", node["span"]), "pat": {"k": "Wild", "span": node["span"], "ty": cu["pat"].get("ty")}, "guard": None, "body": els}]}
+    if k == "Match" and node.get("src") not in ("TryDesugar", "ForLoopDesugar", "AwaitDesugar") and not os.environ.get("CALAMIR_NO_ARMGUARD"):
+        # `P => { if C { X } }` also carries C as its (effective) guard: what the arm does, it does iff P matches and C
+        # holds, in both spellings (`guard_from_body` marks the arm; the body is left as it is)
+        arms = []
+        for a in node.get("arms", []):
+            b = a.get("body")
+            while isinstance(b, dict) and (b.get("k") in ("DropTemps", "Use", "Type") or (b.get("k") == "BlockExpr" and not b["block"].get("stmts") and b["block"].get("expr") is not None and not b.get("label"))):
+                b = b["e"] if b.get("k") != "BlockExpr" else b["block"]["expr"]
+            if isinstance(b, dict) and b.get("k") == "BlockExpr" and len(b["block"].get("stmts") or []) == 1 and b["block"].get("expr") is None and b["block"]["stmts"][0].get("k") in ("Semi", "Expr"):
+                b = b["block"]["stmts"][0]["e"]
+                while isinstance(b, dict) and b.get("k") in ("DropTemps", "Use", "Type"):
+                    b = b["e"]
+            if isinstance(b, dict) and b.get("k") == "If" and b.get("els") is None and b.get("src") is None:
+                c = b["cond"]
+                cu = c
+                while isinstance(cu, dict) and cu.get("k") in ("DropTemps", "Use", "Type"):
+                    cu = cu["e"]
+                if not (isinstance(cu, dict) and cu.get("k") == "LetExpr"):
+                    g = a.get("guard")
+                    ng = c if g is None else {"k": "Binary", "op": "&&", "span": c.get("span", a.get("span")), "ty": "bool", "l": g, "r": c}
+                    a = dict(a, guard=ng, guard_from_body=True)     # the body keeps its `if`: rules looking for an enclosing test still find it
+            arms.append(a)
+        node = dict(node, arms=arms)
     if k == "Match" and node.get("src") not in ("TryDesugar", "ForLoopDesugar", "AwaitDesugar") and len(node.get("arms", [])) == 2:
         # `match flag { true => A, false => B }` -> `if flag { A } else { B }`   (src = "MatchBool")
         def blit(a):
@@ -701,6 +782,21 @@ class Facts:
                     off = 1000000 * counter[0]
                     params = shift(h.raw.get("params", []), off)
                     body = inline(shift(h.raw["body"], off), depth + 1, stack | {c})
+                    # a `return` of the helper leaves the helper, not the caller: it becomes a `break` out of the
+                    # block that stands for the call (closures keep their own returns)
+                    blk_id = "inl%d" % counter[0]
+
+                    def unret(n_):
+                        if isinstance(n_, list):
+                            return [unret(x) for x in n_]
+                        if not isinstance(n_, dict):
+                            return n_
+                        if n_.get("k") == "Closure":
+                            return n_
+                        if n_.get("k") == "Ret":
+                            return {"k": "Break", "span": n_.get("span"), "ty": n_.get("ty"), "target": blk_id, "e": unret(n_.get("e")), "inl_ret": True}
+                        return {k_: (unret(v_) if isinstance(v_, (dict, list)) and k_ not in ("span", "res", "callee") else v_) for k_, v_ in n_.items()}
+                    body = unret(body)
                     args = ([node["recv"]] if k == "MethodCall" else []) + list(node.get("args", []))
                     stmts = []
                     for p_, a_ in zip(params, args):
@@ -715,7 +811,7 @@ class Facts:
                             body = subst_local(body, p_["lid"], a_)
                         else:
                             stmts.append({"k": "Let", "span": node["span"], "pat": p_, "init": a_, "inl_param": True})
-                    return {"k": "BlockExpr", "span": node["span"], "ty": node.get("ty"), "inlined": c,
+                    return {"k": "BlockExpr", "span": node["span"], "ty": node.get("ty"), "inlined": c, "id": blk_id,
                             "block": {"k": "Block", "span": node["span"], "stmts": stmts, "expr": body}}
             return node
         for f in self.fns:
@@ -831,3 +927,26 @@ def shape(node, env=None):
         elif key in ("mut", "inclusive", "dd"):
             items.append((key, v))
     return tuple(items)
+
+
+def specialise(node, lid, value, pat_keys):
+    """copy of `node` in which every nested `match` on local `lid` is replaced by the body of the arm that the constant
+    `value` selects (first arm whose literal keys contain it, else the first catch-all arm) -- used when several token
+    classes share one outer arm and an inner `match` on the same scrutinee tells them apart"""
+    if isinstance(node, list):
+        return [specialise(x, lid, value, pat_keys) for x in node]
+    if not isinstance(node, dict):
+        return node
+    if node.get("k") == "Match" and node.get("src") not in ("ForLoopDesugar", "TryDesugar"):
+        sc = path_local(peel(node["scrut"])) if isinstance(peel(node["scrut"]), dict) and peel(node["scrut"]).get("k") == "Path" else None
+        if sc and sc[1] == lid:
+            chosen = None
+            for a in node.get("arms", []):
+                ks, ca = pat_keys(a["pat"])
+                hit = any(k == ("int", value) or (k[0] == "range" and k[1] is not None and k[2] is not None and k[1] <= value <= k[2]) for k in ks)
+                if hit or (ca and a.get("guard") is None):
+                    chosen = a
+                    break
+            if chosen is not None and chosen.get("guard") is None:
+                return specialise(chosen["body"], lid, value, pat_keys)
+    return {k: (specialise(v, lid, value, pat_keys) if isinstance(v, (dict, list)) and k not in ("span", "res", "callee") else v) for k, v in node.items()}
